@@ -265,11 +265,58 @@ def repro_app_waiting_answer():
     return b > a, "_app_waiting_answer %d -> %d entries after 2 more answered outbound requests" % (a, b)
 
 
+# ----------------------------------------------------------------------------- reader thread x connection thread: state re-created after the release
+def race_retained(sched: List[int], tgt: List[int]) -> bool:
+    """
+    pre: len(sched) == P["slots"] and len(tgt) == P["slots"] and all(0 <= s < P["maxstep"] for s in sched)
+    pre: all(sched[i] < sched[i + 1] for i in range(len(sched) - 1)) and all(0 <= x <= 1 for x in tgt)
+    post: _
+    """
+    hx.begin()
+    from harness import race as R
+    inputs = (sched, tgt)
+    # two requests and the end of the connection arrive together; the reader thread (real __dispatch_message /
+    # _receive_message as cooperative generators) and the connection thread (real _handle_connections /
+    # remove_peer_connection) are interleaved by solver-placed preemptions.  Whatever the order: once the applications have
+    # answered (or been refused) nothing may be left that is keyed by the connection that has gone.
+    sched_c = [hx.concretize_range(x, 0, P["maxstep"]) for x in sched]
+    tgt_c = [hx.concretize_range(x, 0, 2) for x in tgt]
+    why = ""
+    try:
+        with hx.untraced():
+            b = B.Bench(n_peers=1, stats=True)
+            n, p, app = b.node, b.peers[0], b.apps[0]
+            c, s = b.make_ready(p)
+            s.__class__ = R.StrictSock
+            s.inq = [B.ccr(PEER, 61, 61).as_bytes() + B.ccr(PEER, 62, 62).as_bytes(), b""]
+            WORLD.pipe.clear()
+            io_death, reader_death = R.run_race(n, c, sched_c, tgt_c, lambda v, lo, hi: v)
+            for req in list(app.requests):
+                try:
+                    app.send_answer(app.generate_answer(req, result_code=2001))
+                except Exception:
+                    pass
+            left = [k for k in n._peer_waiting_answer if k == c.ident and n._peer_waiting_answer[k]] + \
+                   [k for k in n._origin_waiting_answer if str(k).startswith(c.ident + ":")]
+            if io_death or reader_death:
+                why = "a thread died: %s %s" % (io_death, reader_death)
+            elif c.ident in n.connections:
+                why = "the connection that ended is still registered"
+            elif left:
+                why = "state keyed by the connection that has gone is retained: %r" % (left[:3],)
+    except Exception as e:
+        why = "harness: %s: %s" % (type(e).__name__, str(e)[:100])
+    return hx.check(inputs, (why,), ("",), "per-transaction state of a connection that has ended is retained")
+
+
 def specs(tier, seed, carve):
     import random
     q = tier == "quick"
     rnd = random.Random(seed)
     out = []
+    for slots in ((1, 2) if q else (1, 2, 3)):
+        out.append(dict(id="race_retained/p%d" % slots, fn="race_retained", params={"slots": slots, "maxstep": 60 if slots < 3 else 40}, timeout=900 if q else 6000,
+                        bound="two requests and EOF in one go: reader thread x connection thread (cooperative transforms of the real functions), every placement of %d preemption(s) in the first %d steps" % (slots, 60 if slots < 3 else 40)))
     firsts = list(range(len(OPS)))          # every pair already in the quick tier (paths run natively)
     for f in firsts:
         out.append(dict(id="growth/2/" + OPS[f], fn="growth", params={"n": 2, "prefix": [f]}, timeout=900,
